@@ -84,6 +84,32 @@ fn make_validation_table(long_string_refs: bool) -> Rc<Table> {
     )
 }
 
+/// Extracts a string cell of a catalog table, reporting a malformed file
+/// (e.g. a null cell in a non-nullable catalog column) as an error.
+fn catalog_str<'a>(value: &'a Value, table_name: &str) -> io::Result<&'a str> {
+    match value.as_str() {
+        Some(string) => Ok(string),
+        None => invalid_data!(
+            "Malformed {:?} table: expected a string, found {:?}",
+            table_name,
+            value
+        ),
+    }
+}
+
+/// Extracts an integer cell of a catalog table, reporting a malformed file
+/// as an error.
+fn catalog_int(value: &Value, table_name: &str) -> io::Result<i32> {
+    match value.as_int() {
+        Some(number) => Ok(number),
+        None => invalid_data!(
+            "Malformed {:?} table: expected an integer, found {:?}",
+            table_name,
+            value
+        ),
+    }
+}
+
 fn is_reserved_table_name(table_name: &str) -> bool {
     table_name == COLUMNS_TABLE_NAME
         || table_name == TABLES_TABLE_NAME
@@ -309,7 +335,8 @@ impl<F: Read + Seek> Package<F> {
                     table.read_rows(stream)?,
                 );
                 for row in rows {
-                    let table_name = row[0].as_str().unwrap().to_string();
+                    let table_name =
+                        catalog_str(&row[0], TABLES_TABLE_NAME)?.to_string();
                     if names.contains(&table_name) {
                         invalid_data!(
                             "Repeated key in {:?} table: {:?}",
@@ -340,9 +367,10 @@ impl<F: Read + Seek> Package<F> {
                     table.read_rows(stream)?,
                 );
                 for row in rows {
-                    let table_name = row[0].as_str().unwrap();
+                    let table_name = catalog_str(&row[0], COLUMNS_TABLE_NAME)?;
                     if let Some(cols) = columns_map.get_mut(table_name) {
-                        let col_index = row[1].as_int().unwrap();
+                        let col_index =
+                            catalog_int(&row[1], COLUMNS_TABLE_NAME)?;
                         if cols.contains_key(&col_index) {
                             invalid_data!(
                                 "Repeated key in {:?} table: {:?}",
@@ -350,8 +378,10 @@ impl<F: Read + Seek> Package<F> {
                                 (table_name, col_index)
                             );
                         }
-                        let col_name = row[2].as_str().unwrap().to_string();
-                        let type_bits = row[3].as_int().unwrap();
+                        let col_name = catalog_str(&row[2], COLUMNS_TABLE_NAME)?
+                            .to_string();
+                        let type_bits =
+                            catalog_int(&row[3], COLUMNS_TABLE_NAME)?;
                         cols.insert(col_index, (col_name, type_bits));
                     } else {
                         invalid_data!(
@@ -375,16 +405,16 @@ impl<F: Read + Seek> Package<F> {
             if comp.exists(&stream_name) {
                 let stream = comp.open_stream(&stream_name)?;
                 for value_refs in table.read_rows(stream)?.into_iter() {
-                    let table_name = value_refs[0]
-                        .to_value(&string_pool)
-                        .as_str()
-                        .unwrap()
-                        .to_string();
-                    let column_name = value_refs[1]
-                        .to_value(&string_pool)
-                        .as_str()
-                        .unwrap()
-                        .to_string();
+                    let table_name = catalog_str(
+                        &value_refs[0].to_value(&string_pool),
+                        VALIDATION_TABLE_NAME,
+                    )?
+                    .to_string();
+                    let column_name = catalog_str(
+                        &value_refs[1].to_value(&string_pool),
+                        VALIDATION_TABLE_NAME,
+                    )?
+                    .to_string();
                     let key = (table_name, column_name);
                     if validation_map.contains_key(&key) {
                         invalid_data!(
@@ -417,7 +447,7 @@ impl<F: Read + Seek> Package<F> {
                 let key = (table_name.clone(), column_name);
                 if let Some(value_refs) = validation_map.get(&key) {
                     let is_nullable = value_refs[2].to_value(&string_pool);
-                    if is_nullable.as_str().unwrap() == "Y" {
+                    if catalog_str(&is_nullable, VALIDATION_TABLE_NAME)? == "Y" {
                         builder = builder.nullable();
                     }
                     let min_value = value_refs[3].to_value(&string_pool);
